@@ -26,6 +26,7 @@ import (
 	"os"
 	"os/exec"
 	"path/filepath"
+	"regexp"
 	"sort"
 	"strings"
 	"sync"
@@ -301,7 +302,7 @@ type runRes struct {
 func runBin(cfgHome, dir string, stdin []byte, args ...string) runRes {
 	cmd := exec.Command(bin, args...)
 	cmd.Dir = dir
-	cmd.Env = []string{"HOME=" + cfgHome, "XDG_CONFIG_HOME=" + filepath.Join(cfgHome, ".config"), "PATH=/usr/bin:/bin", "TMPDIR=" + filepath.Join(dir, "tmp")}
+	cmd.Env = []string{"HOME=" + cfgHome, "XDG_CONFIG_HOME=" + filepath.Join(cfgHome, ".config"), "PATH=/usr/bin:/bin", "GOMAXPROCS=2", "TMPDIR=" + filepath.Join(dir, "tmp")}
 	os.MkdirAll(filepath.Join(dir, "tmp"), 0o755)
 	if stdin != nil {
 		cmd.Stdin = bytes.NewReader(stdin)
@@ -417,7 +418,7 @@ func normPDF(b []byte, upw, opw string) (string, error) {
 			}
 			sb.WriteString("]")
 		default:
-			sb.WriteString(o.PDFString() + " ")
+			sb.WriteString(subsetRe.ReplaceAllString(o.PDFString(), "/SUBSET+") + " ")
 		}
 		return nil
 	}
@@ -476,8 +477,23 @@ func scrubJSON(v any, in string) any {
 		return o
 	case []any:
 		o := make([]any, len(x))
+		keys := make([]string, len(x))
+		objs := true
 		for i, e := range x {
 			o[i] = scrubJSON(e, in)
+			if _, ok := o[i].(map[string]any); !ok {
+				objs = false
+			}
+			kb, _ := json.Marshal(o[i])
+			keys[i] = string(kb)
+		}
+		if objs {
+			// pdfcpu emits arrays of field objects in map-iteration order: compare as multisets
+			sort.SliceStable(o, func(a, b int) bool {
+				ka, _ := json.Marshal(o[a])
+				kb, _ := json.Marshal(o[b])
+				return string(ka) < string(kb)
+			})
 		}
 		return o
 	}
@@ -491,6 +507,9 @@ func trunc(s string, n int) string {
 	return s
 }
 
+// random font-subset prefixes (/ABCDEF+Name)
+var subsetRe = regexp.MustCompile(`/[A-Z]{6}\+`)
+
 type recipe struct {
 	name  string
 	execs []string // functions of pkg/cli this recipe drives through "-"
@@ -501,6 +520,8 @@ type recipe struct {
 	opw   string
 	aux   map[string]string // extra files to place in the work dir: name -> content
 	quick bool
+	noInOnly   bool   // the command has no "stdin in, implicit stdout" form
+	knownClass string // class to report when a stdin variant's document differs from the file variant's
 }
 
 var samplesJSONBookmarks = `{"bookmarks":[{"title":"Page 1","page":1},{"title":"Page 2","page":2,"kids":[{"title":"Page 3","page":3}]}]}`
@@ -510,80 +531,80 @@ func recipes() []recipe {
 	q := true
 	return []recipe{
 		{name: "optimize", execs: []string{"Optimize"}, args: []string{"optimize", "IN", "OUT"}, in: "go.pdf", kind: "pdf", quick: q},
-		{name: "trim", execs: []string{"Trim"}, args: []string{"trim", "-p", "1-2", "IN", "OUT"}, in: "go.pdf", kind: "pdf", quick: q},
-		{name: "collect", execs: []string{"Collect"}, args: []string{"collect", "-p", "2,1,2", "IN", "OUT"}, in: "go.pdf", kind: "pdf", quick: q},
-		{name: "rotate", execs: []string{"Rotate"}, args: []string{"rotate", "-p", "1", "IN", "90", "OUT"}, in: "go.pdf", kind: "pdf", quick: q},
-		{name: "encrypt", execs: []string{"Encrypt", "runContentStreamOperation"}, args: []string{"encrypt", "--upw", "u1", "--opw", "o1", "IN", "OUT"}, in: "go.pdf", kind: "pdf", upw: "u1", opw: "o1", quick: q},
-		{name: "pagelayout-reset", execs: []string{"ResetPageLayout"}, args: []string{"pagelayout", "reset", "IN", "OUT"}, in: "go.pdf", kind: "pdf"},
-		{name: "pagelayout-set", execs: []string{"SetPageLayout"}, args: []string{"pagelayout", "set", "IN", "TwoColumnLeft", "OUT"}, in: "go.pdf", kind: "pdf", quick: q},
-		{name: "pagemode-set", execs: []string{"SetPageMode"}, args: []string{"pagemode", "set", "IN", "UseOutlines", "OUT"}, in: "go.pdf", kind: "pdf"},
-		{name: "pagemode-reset", execs: []string{"ResetPageMode"}, args: []string{"pagemode", "reset", "IN", "OUT"}, in: "go.pdf", kind: "pdf"},
-		{name: "viewerpref-set", execs: []string{"SetViewerPreferences"}, args: []string{"viewerpref", "set", "IN", "vp.json", "OUT"}, in: "go.pdf", kind: "pdf", aux: map[string]string{"vp.json": viewerPrefJSON}},
-		{name: "viewerpref-reset", execs: []string{"ResetViewerPreferences"}, args: []string{"viewerpref", "reset", "IN", "OUT"}, in: "go.pdf", kind: "pdf"},
-		{name: "zoom", execs: []string{"Zoom"}, args: []string{"zoom", "--", "factor:0.5", "IN", "OUT"}, in: "go.pdf", kind: "pdf", quick: q},
-		{name: "resize", execs: []string{"Resize"}, args: []string{"resize", "--", "scale:0.5", "IN", "OUT"}, in: "go.pdf", kind: "pdf"},
-		{name: "crop", execs: []string{"Crop"}, args: []string{"crop", "--", "[0 0 100 100]", "IN", "OUT"}, in: "go.pdf", kind: "pdf"},
-		{name: "boxes-add", execs: []string{"AddBoxes"}, args: []string{"boxes", "add", "--", "crop:[0 0 100 100]", "IN", "OUT"}, in: "go.pdf", kind: "pdf"},
-		{name: "boxes-remove", execs: []string{"RemoveBoxes"}, args: []string{"boxes", "remove", "--", "crop", "IN", "OUT"}, in: "go.pdf", kind: "pdf"},
-		{name: "stamp-add", execs: []string{"AddWatermarks"}, args: []string{"stamp", "add", "-m", "text", "--", "hello", "rot:0", "IN", "OUT"}, in: "go.pdf", kind: "pdf", quick: q},
-		{name: "nup", execs: []string{"NUp"}, args: []string{"nup", "--", "form:A4", "OUT", "4", "IN"}, in: "go.pdf", kind: "pdf", quick: q},
-		{name: "grid", execs: []string{"Grid"}, args: []string{"grid", "--", "form:A4", "OUT", "1", "2", "IN"}, in: "go.pdf", kind: "pdf"},
-		{name: "booklet", execs: []string{"Booklet"}, args: []string{"booklet", "--", "form:A4", "OUT", "4", "IN"}, in: "go.pdf", kind: "pdf"},
-		{name: "pages-remove", execs: []string{"RemovePages"}, args: []string{"pages", "remove", "-p", "1", "IN", "OUT"}, in: "go.pdf", kind: "pdf", quick: q},
-		{name: "pages-insert", execs: []string{"InsertPages"}, args: []string{"pages", "insert", "-p", "1", "IN", "OUT"}, in: "go.pdf", kind: "pdf"},
-		{name: "keywords-add", execs: []string{"AddKeywords", "runKeywordStreamOperation"}, args: []string{"keywords", "add", "IN", "OUT", "kw1", "kw2"}, in: "go.pdf", kind: "pdf", quick: q},
-		{name: "keywords-remove", execs: []string{"RemoveKeywords"}, args: []string{"keywords", "remove", "IN", "OUT"}, in: "go.pdf", kind: "pdf"},
-		{name: "properties-add", execs: []string{"AddProperties", "runPropertyStreamOperation"}, args: []string{"properties", "add", "IN", "OUT", "name = value"}, in: "go.pdf", kind: "pdf"},
-		{name: "properties-remove", execs: []string{"RemoveProperties"}, args: []string{"properties", "remove", "IN", "OUT"}, in: "go.pdf", kind: "pdf"},
-		{name: "annotations-remove", execs: []string{"RemoveAnnotations"}, args: []string{"annotations", "remove", "IN", "OUT"}, in: "annotTest.pdf", kind: "pdf", quick: q},
-		{name: "bookmarks-import", execs: []string{"ImportBookmarks"}, args: []string{"bookmarks", "import", "IN", "bm.json", "OUT"}, in: "go.pdf", kind: "pdf", aux: map[string]string{"bm.json": samplesJSONBookmarks}},
+		{name: "trim", execs: []string{"Trim"}, args: []string{"trim", "-p", "1-2", "IN", "OUT"}, in: "MULTI.pdf", kind: "pdf", quick: q},
+		{name: "collect", execs: []string{"Collect"}, args: []string{"collect", "-p", "2,1,2", "IN", "OUT"}, in: "MULTI.pdf", kind: "pdf"},
+		{name: "rotate", execs: []string{"Rotate"}, args: []string{"rotate", "-p", "1", "IN", "90", "OUT"}, in: "MULTI.pdf", kind: "pdf"},
+		{name: "encrypt", execs: []string{"Encrypt", "runContentStreamOperation"}, args: []string{"encrypt", "--upw", "u1", "--opw", "o1", "IN", "OUT"}, in: "MULTI.pdf", kind: "pdf", upw: "u1", opw: "o1", quick: q},
+		{name: "pagelayout-reset", execs: []string{"ResetPageLayout"}, args: []string{"pagelayout", "reset", "IN", "OUT"}, in: "MULTI.pdf", kind: "pdf"},
+		{name: "pagelayout-set", execs: []string{"SetPageLayout"}, args: []string{"pagelayout", "set", "IN", "TwoColumnLeft", "OUT"}, in: "MULTI.pdf", kind: "pdf"},
+		{name: "pagemode-set", execs: []string{"SetPageMode"}, args: []string{"pagemode", "set", "IN", "UseOutlines", "OUT"}, in: "MULTI.pdf", kind: "pdf"},
+		{name: "pagemode-reset", execs: []string{"ResetPageMode"}, args: []string{"pagemode", "reset", "IN", "OUT"}, in: "MULTI.pdf", kind: "pdf"},
+		{name: "viewerpref-set", execs: []string{"SetViewerPreferences"}, args: []string{"viewerpref", "set", "IN", "vp.json", "OUT"}, in: "MULTI.pdf", kind: "pdf", aux: map[string]string{"vp.json": viewerPrefJSON}},
+		{name: "viewerpref-reset", execs: []string{"ResetViewerPreferences"}, args: []string{"viewerpref", "reset", "IN", "OUT"}, in: "MULTI.pdf", kind: "pdf"},
+		{name: "zoom", execs: []string{"Zoom"}, args: []string{"zoom", "--", "factor:0.5", "IN", "OUT"}, in: "MULTI.pdf", kind: "pdf"},
+		{name: "resize", execs: []string{"Resize"}, args: []string{"resize", "--", "scale:0.5", "IN", "OUT"}, in: "MULTI.pdf", kind: "pdf"},
+		{name: "crop", execs: []string{"Crop"}, args: []string{"crop", "--", "[0 0 100 100]", "IN", "OUT"}, in: "MULTI.pdf", kind: "pdf"},
+		{name: "boxes-add", execs: []string{"AddBoxes"}, args: []string{"boxes", "add", "--", "crop:[0 0 100 100]", "IN", "OUT"}, in: "MULTI.pdf", kind: "pdf"},
+		{name: "boxes-remove", execs: []string{"RemoveBoxes"}, args: []string{"boxes", "remove", "--", "crop", "IN", "OUT"}, in: "MULTI.pdf", kind: "pdf"},
+		{name: "stamp-add", execs: []string{"AddWatermarks"}, args: []string{"stamp", "add", "-m", "text", "--", "hello", "rot:0", "IN", "OUT"}, in: "MULTI.pdf", kind: "pdf", quick: q},
+		{name: "nup", execs: []string{"NUp"}, args: []string{"nup", "--", "form:A4", "OUT", "4", "IN"}, in: "MULTI.pdf", kind: "pdf", noInOnly: true, quick: q},
+		{name: "grid", execs: []string{"Grid"}, args: []string{"grid", "--", "form:A4", "OUT", "1", "2", "IN"}, in: "MULTI.pdf", kind: "pdf", noInOnly: true},
+		{name: "booklet", execs: []string{"Booklet"}, args: []string{"booklet", "--", "form:A4", "OUT", "4", "IN"}, in: "MULTI.pdf", kind: "pdf", noInOnly: true},
+		{name: "pages-remove", execs: []string{"RemovePages"}, args: []string{"pages", "remove", "-p", "1", "IN", "OUT"}, in: "MULTI.pdf", kind: "pdf"},
+		{name: "pages-insert", execs: []string{"InsertPages"}, args: []string{"pages", "insert", "-p", "1", "IN", "OUT"}, in: "MULTI.pdf", kind: "pdf"},
+		{name: "keywords-add", execs: []string{"AddKeywords", "runKeywordStreamOperation"}, args: []string{"keywords", "add", "IN", "OUT", "kw1", "kw2"}, in: "MULTI.pdf", kind: "pdf", quick: q},
+		{name: "keywords-remove", execs: []string{"RemoveKeywords"}, args: []string{"keywords", "remove", "IN", "OUT"}, in: "KW.pdf", kind: "pdf"},
+		{name: "properties-add", execs: []string{"AddProperties", "runPropertyStreamOperation"}, args: []string{"properties", "add", "IN", "OUT", "name = value"}, in: "MULTI.pdf", kind: "pdf", noInOnly: true},
+		{name: "properties-remove", execs: []string{"RemoveProperties"}, args: []string{"properties", "remove", "IN", "OUT"}, in: "PROP.pdf", kind: "pdf", noInOnly: true},
+		{name: "annotations-remove", execs: []string{"RemoveAnnotations"}, args: []string{"annotations", "remove", "IN", "OUT"}, in: "annotTest.pdf", kind: "pdf"},
+		{name: "bookmarks-import", execs: []string{"ImportBookmarks"}, args: []string{"bookmarks", "import", "IN", "bm.json", "OUT"}, in: "MULTI.pdf", kind: "pdf", aux: map[string]string{"bm.json": samplesJSONBookmarks}},
 		{name: "bookmarks-remove", execs: []string{"RemoveBookmarks"}, args: []string{"bookmarks", "remove", "IN", "OUT"}, in: "BM.pdf", kind: "pdf"},
-		{name: "attachments-add", execs: []string{"AddAttachments"}, args: []string{"attachments", "add", "IN", "att.txt", "OUT"}, in: "go.pdf", kind: "pdf", aux: map[string]string{"att.txt": "attachment"}},
-		{name: "attachments-remove", execs: []string{"RemoveAttachments"}, args: []string{"attachments", "remove", "IN", "OUT"}, in: "ATT.pdf", kind: "pdf"},
+		{name: "attachments-add", execs: []string{"AddAttachments"}, args: []string{"attachments", "add", "IN", "att.txt"}, in: "MULTI.pdf", kind: "pdfi", aux: map[string]string{"att.txt": "attachment"}},
+		{name: "attachments-remove", execs: []string{"RemoveAttachments"}, args: []string{"attachments", "remove", "IN"}, in: "ATT.pdf", kind: "pdfi"},
 		{name: "permissions-set", execs: []string{"SetPermissions"}, args: []string{"permissions", "set", "--perm", "all", "--upw", "u1", "--opw", "o1", "IN", "OUT"}, in: "ENC.pdf", kind: "pdf", upw: "u1", opw: "o1"},
 		{name: "decrypt", execs: []string{"Decrypt"}, args: []string{"decrypt", "--upw", "u1", "--opw", "o1", "IN", "OUT"}, in: "ENC.pdf", kind: "pdf", quick: q},
 		{name: "changeupw", execs: []string{"ChangeUserPassword"}, args: []string{"changeupw", "--opw", "o1", "IN", "u1", "u2", "OUT"}, in: "ENC.pdf", kind: "pdf", upw: "u2", opw: "o1"},
 		{name: "changeopw", execs: []string{"ChangeOwnerPassword"}, args: []string{"changeopw", "--upw", "u1", "IN", "o1", "o2", "OUT"}, in: "ENC.pdf", kind: "pdf", upw: "u1", opw: "o2"},
-		{name: "form-reset", execs: []string{"formPDFFileCommand"}, args: []string{"form", "reset", "IN", "OUT"}, in: "Acroforms2.pdf", kind: "pdf"},
-		{name: "form-lock", execs: []string{"formPDFFileCommand"}, args: []string{"form", "lock", "IN", "OUT"}, in: "Acroforms2.pdf", kind: "pdf", quick: q},
-		{name: "signatures-remove", execs: []string{"RemoveSignatures"}, args: []string{"signatures", "remove", "IN", "OUT"}, in: "go.pdf", kind: "pdf"},
-		{name: "merge", execs: []string{"MergeCreate", "mergeCreateRaw", "mergeReader"}, args: []string{"merge", "OUT", "IN", "second.pdf"}, in: "go.pdf", kind: "pdf", aux: map[string]string{"second.pdf": "@test.pdf"}, quick: q},
-		{name: "extract-page-stdout", execs: []string{"extractPageToStdout", "ExtractPages"}, args: []string{"extract", "-m", "page", "-p", "2", "IN", "OUTDIR1"}, in: "go.pdf", kind: "pdf1"},
+		{name: "form-reset", execs: []string{"formPDFFileCommand"}, args: []string{"form", "reset", "IN", "OUT"}, in: "samples:form/demo/english.pdf", kind: "pdf"},
+		{name: "form-lock", execs: []string{"formPDFFileCommand"}, args: []string{"form", "lock", "IN", "OUT"}, in: "samples:form/demo/english.pdf", kind: "pdf"},
+		{name: "merge", execs: []string{"MergeCreate", "mergeCreateRaw", "mergeReader"}, args: []string{"merge", "OUT", "IN", "second.pdf"}, in: "MULTI.pdf", kind: "pdf", aux: map[string]string{"second.pdf": "@test.pdf"}, quick: q, noInOnly: true, knownClass: "merge-stdin-ignores-bookmarks"},
+		{name: "merge-nobookmarks", execs: []string{"MergeCreate", "mergeCreateRaw", "mergeReader"}, args: []string{"merge", "--bookmarks=false", "OUT", "IN", "second.pdf"}, in: "MULTI.pdf", kind: "pdf", aux: map[string]string{"second.pdf": "@test.pdf"}, quick: q, noInOnly: true},
+		{name: "extract-page-stdout", execs: []string{"extractPageToStdout", "ExtractPages"}, args: []string{"extract", "-m", "page", "-p", "2", "IN", "OUTDIR1"}, in: "MULTI.pdf", kind: "pdf1"},
 
 		// text to stdout, input from stdin
 		{name: "info", execs: []string{"listInfoInput", "ListInfo"}, args: []string{"info", "IN"}, in: "go.pdf", kind: "text", quick: q},
-		{name: "validate", execs: []string{"validateInput", "Validate"}, args: []string{"validate", "IN"}, in: "go.pdf", kind: "text", quick: q},
+		{name: "validate", execs: []string{"validateInput", "Validate"}, args: []string{"validate", "IN"}, in: "MULTI.pdf", kind: "text", quick: q},
 		{name: "annotations-list", execs: []string{"ListAnnotations"}, args: []string{"annotations", "list", "IN"}, in: "annotTest.pdf", kind: "text"},
 		{name: "attachments-list", execs: []string{"ListAttachments"}, args: []string{"attachments", "list", "IN"}, in: "ATT.pdf", kind: "text"},
 		{name: "bookmarks-list", execs: []string{"ListBookmarks"}, args: []string{"bookmarks", "list", "IN"}, in: "BM.pdf", kind: "text"},
-		{name: "boxes-list", execs: []string{"ListBoxes"}, args: []string{"boxes", "list", "IN"}, in: "go.pdf", kind: "text"},
-		{name: "form-list", execs: []string{"ListFormFields"}, args: []string{"form", "list", "IN"}, in: "Acroforms2.pdf", kind: "text"},
+		{name: "boxes-list", execs: []string{"ListBoxes"}, args: []string{"boxes", "list", "IN"}, in: "MULTI.pdf", kind: "text"},
+		{name: "form-list", execs: []string{"ListFormFields"}, args: []string{"form", "list", "IN"}, in: "samples:form/demo/english.pdf", kind: "text"},
 		{name: "images-list", execs: []string{"listImagesFile", "ListImagesFile"}, args: []string{"images", "list", "IN"}, in: "go.pdf", kind: "text"},
 		{name: "keywords-list", execs: []string{"ListKeywords"}, args: []string{"keywords", "list", "IN"}, in: "KW.pdf", kind: "text"},
-		{name: "properties-list", execs: []string{"ListProperties"}, args: []string{"properties", "list", "IN"}, in: "KW.pdf", kind: "text"},
-		{name: "pagelayout-list", execs: []string{"ListPageLayout"}, args: []string{"pagelayout", "list", "IN"}, in: "go.pdf", kind: "text"},
-		{name: "pagemode-list", execs: []string{"ListPageMode"}, args: []string{"pagemode", "list", "IN"}, in: "go.pdf", kind: "text"},
-		{name: "viewerpref-list", execs: []string{"ListViewerPreferences"}, args: []string{"viewerpref", "list", "IN"}, in: "go.pdf", kind: "text"},
+		{name: "properties-list", execs: []string{"ListProperties"}, args: []string{"properties", "list", "IN"}, in: "PROP.pdf", kind: "text"},
+		{name: "pagelayout-list", execs: []string{"ListPageLayout"}, args: []string{"pagelayout", "list", "IN"}, in: "MULTI.pdf", kind: "text"},
+		{name: "pagemode-list", execs: []string{"ListPageMode"}, args: []string{"pagemode", "list", "IN"}, in: "MULTI.pdf", kind: "text"},
+		{name: "viewerpref-list", execs: []string{"ListViewerPreferences"}, args: []string{"viewerpref", "list", "IN"}, in: "MULTI.pdf", kind: "text"},
 		{name: "permissions-list", execs: []string{"ListPermissions"}, args: []string{"permissions", "list", "--upw", "u1", "IN"}, in: "ENC.pdf", kind: "text", quick: q},
-		{name: "signatures-validate", execs: []string{"validateSignatures"}, args: []string{"signatures", "validate", "IN"}, in: "go.pdf", kind: "text"},
+		{name: "signatures-validate", execs: []string{"validateSignatures"}, args: []string{"signatures", "validate", "IN"}, in: "MULTI.pdf", kind: "text"},
 
 		// JSON on stdout
 		{name: "info-json", execs: []string{"handleInfoCommand"}, args: []string{"info", "--json", "IN"}, in: "go.pdf", kind: "json", quick: q},
 		{name: "annotations-list-json", execs: []string{"handleListAnnotationsCommand", "listAnnotations"}, args: []string{"annotations", "list", "--json", "IN"}, in: "annotTest.pdf", kind: "json", quick: q},
-		{name: "form-list-json", execs: []string{"handleListFormFieldsCommand", "listFormFieldsJSON"}, args: []string{"form", "list", "--json", "IN"}, in: "Acroforms2.pdf", kind: "json", quick: q},
-		{name: "viewerpref-list-json", execs: []string{"handleListViewerPreferencesCommand"}, args: []string{"viewerpref", "list", "--json", "--all", "IN"}, in: "go.pdf", kind: "json", quick: q},
+		{name: "form-list-json", execs: []string{"handleListFormFieldsCommand", "listFormFieldsJSON"}, args: []string{"form", "list", "--json", "IN"}, in: "samples:form/demo/english.pdf", kind: "json", quick: q},
+		{name: "viewerpref-list-json", execs: []string{"handleListViewerPreferencesCommand"}, args: []string{"viewerpref", "list", "--json", "--all", "IN"}, in: "MULTI.pdf", kind: "json", quick: q},
 		{name: "certificates-list-json", execs: []string{"handleListCertificatesCommand"}, args: []string{"certificates", "list", "--json"}, in: "", kind: "json", quick: q},
 		{name: "bookmarks-export", execs: []string{"ExportBookmarks"}, args: []string{"bookmarks", "export", "IN", "OUTJSON"}, in: "BM.pdf", kind: "jsonout", quick: q},
-		{name: "form-export", execs: []string{"ExportFormFields"}, args: []string{"form", "export", "IN", "OUTJSON"}, in: "Acroforms2.pdf", kind: "jsonout", quick: q},
+		{name: "form-export", execs: []string{"ExportFormFields"}, args: []string{"form", "export", "IN", "OUTJSON"}, in: "samples:form/demo/english.pdf", kind: "jsonfile", quick: q},
 
 		// directory outputs with stdin input
-		{name: "split", execs: []string{"Split"}, args: []string{"split", "IN", "OUTDIR", "2"}, in: "go.pdf", kind: "dir"},
-		{name: "split-page", execs: []string{"SplitByPageNr"}, args: []string{"split", "-m", "page", "IN", "OUTDIR", "2", "4"}, in: "go.pdf", kind: "dir"},
-		{name: "extract-pages", execs: []string{"ExtractPages"}, args: []string{"extract", "-m", "page", "-p", "1-2", "IN", "OUTDIR"}, in: "go.pdf", kind: "dir"},
-		{name: "extract-content", execs: []string{"ExtractContent"}, args: []string{"extract", "-m", "content", "-p", "1", "IN", "OUTDIR"}, in: "go.pdf", kind: "dir"},
+		{name: "split", execs: []string{"Split"}, args: []string{"split", "IN", "OUTDIR", "2"}, in: "MULTI.pdf", kind: "dir"},
+		{name: "split-page", execs: []string{"SplitByPageNr"}, args: []string{"split", "-m", "page", "IN", "OUTDIR", "2", "4"}, in: "MULTI.pdf", kind: "dir"},
+		{name: "extract-pages", execs: []string{"ExtractPages"}, args: []string{"extract", "-m", "page", "-p", "1-2", "IN", "OUTDIR"}, in: "MULTI.pdf", kind: "dir"},
+		{name: "extract-content", execs: []string{"ExtractContent"}, args: []string{"extract", "-m", "content", "-p", "1", "IN", "OUTDIR"}, in: "MULTI.pdf", kind: "dir"},
 		{name: "extract-images", execs: []string{"ExtractImages"}, args: []string{"extract", "-m", "image", "IN", "OUTDIR"}, in: "go.pdf", kind: "dir"},
 		{name: "extract-fonts", execs: []string{"ExtractFonts"}, args: []string{"extract", "-m", "font", "IN", "OUTDIR"}, in: "go.pdf", kind: "dir"},
-		{name: "extract-meta", execs: []string{"ExtractMetadata"}, args: []string{"extract", "-m", "meta", "IN", "OUTDIR"}, in: "go.pdf", kind: "dir"},
+		{name: "extract-meta", execs: []string{"ExtractMetadata"}, args: []string{"extract", "-m", "meta", "IN", "OUTDIR"}, in: "MULTI.pdf", kind: "dir"},
 		{name: "attachments-extract", execs: []string{"ExtractAttachments"}, args: []string{"attachments", "extract", "IN", "OUTDIR"}, in: "ATT.pdf", kind: "dir"},
 		{name: "ndown", execs: []string{"NDown"}, args: []string{"ndown", "2", "IN", "OUTDIR"}, in: "test.pdf", kind: "dir"},
 		{name: "poster", execs: []string{"Poster"}, args: []string{"poster", "--", "form:A5", "IN", "OUTDIR"}, in: "test.pdf", kind: "dir"},
@@ -608,6 +629,7 @@ var notExercised = map[string]string{
 	"formPDFWithData":              "form fill needs JSON form data fixtures",
 	"updateImagesInOut":            "images update needs image fixtures",
 	"RemoveWatermarks":             "needs a stamped input; AddWatermarks drives the same helper",
+	"RemoveSignatures":             "no signed sample document in the tree",
 	"ListFormFieldsFile":           "file-only variant",
 	"ListPermissionsFile":          "file-only variant",
 	"formFieldSource":              "label only",
@@ -697,7 +719,11 @@ func fixture(name string) []byte {
 	if b, ok := fixtures[name]; ok {
 		return b
 	}
-	b, err := os.ReadFile(filepath.Join(repo, "pkg", "testdata", name))
+	path := filepath.Join(repo, "pkg", "testdata", name)
+	if strings.HasPrefix(name, "samples:") {
+		path = filepath.Join(repo, "pkg", "samples", name[len("samples:"):])
+	}
+	b, err := os.ReadFile(path)
 	must(err)
 	fixtures[name] = b
 	return b
@@ -710,7 +736,11 @@ func makeDerived(cfg string) error {
 	must(os.WriteFile(filepath.Join(d, "go.pdf"), fixture("go.pdf"), 0o644))
 	must(os.WriteFile(filepath.Join(d, "att.txt"), []byte("attachment"), 0o644))
 	must(os.WriteFile(filepath.Join(d, "bm.json"), []byte(samplesJSONBookmarks), 0o644))
+	must(os.WriteFile(filepath.Join(d, "test.pdf"), fixture("test.pdf"), 0o644))
+	var baseDoc []byte
 	steps := [][]string{
+		{"merge", "--bookmarks=false", "MULTI.pdf", "test.pdf", "test.pdf", "test.pdf", "test.pdf"},
+		{"properties", "add", "go.pdf", "PROP.pdf", "alpha = beta"},
 		{"encrypt", "--upw", "u1", "--opw", "o1", "go.pdf", "ENC.pdf"},
 		{"attachments", "add", "go.pdf", "att.txt"},
 		{"bookmarks", "import", "go.pdf", "bm.json", "BM.pdf"},
@@ -721,16 +751,22 @@ func makeDerived(cfg string) error {
 		if rr.exit != 0 {
 			return fmt.Errorf("fixture step %v: exit %d: %s", s, rr.exit, rr.stderr)
 		}
+		if s[0] == "merge" {
+			b, err := os.ReadFile(filepath.Join(d, "MULTI.pdf"))
+			must(err)
+			baseDoc = b
+			must(os.WriteFile(filepath.Join(d, "go.pdf"), baseDoc, 0o644))
+		}
 		if s[0] == "attachments" {
 			b, err := os.ReadFile(filepath.Join(d, "go.pdf"))
 			must(err)
 			fixMu.Lock()
 			fixtures["ATT.pdf"] = b
 			fixMu.Unlock()
-			must(os.WriteFile(filepath.Join(d, "go.pdf"), fixture("go.pdf"), 0o644))
+			must(os.WriteFile(filepath.Join(d, "go.pdf"), baseDoc, 0o644))
 		}
 	}
-	for _, n := range []string{"ENC.pdf", "BM.pdf", "KW.pdf"} {
+	for _, n := range []string{"ENC.pdf", "BM.pdf", "KW.pdf", "MULTI.pdf", "PROP.pdf"} {
 		b, err := os.ReadFile(filepath.Join(d, n))
 		if err != nil {
 			return err
@@ -752,6 +788,9 @@ func textNorm(b []byte, inPath string) string {
 			lines[i] = "@:"
 		}
 		lines[i] = strings.ReplaceAll(lines[i], "stdin", "@")
+		if strings.HasSuffix(strings.TrimSpace(lines[i]), "Source: -") {
+			lines[i] = strings.Replace(lines[i], "Source: -", "Source: @", 1)
+		}
 	}
 	return strings.Join(lines, "\n")
 }
@@ -774,6 +813,8 @@ func runRecipe(rec recipe, idx int, cfg string, thorough bool) []*outcome {
 	base := filepath.Join(scratch, fmt.Sprintf("b%d", idx))
 	newOutcome := func(v string) *outcome { o := &outcome{rec: rec, variant: v}; outs = append(outs, o); return o }
 
+	full := thorough || rec.name == "optimize" || rec.name == "encrypt" || rec.name == "merge"
+	var plainFileNorm string
 	verbs := [][]string{nil}
 	if rec.quick || thorough {
 		verbs = append(verbs, []string{"-vv"})
@@ -791,9 +832,19 @@ func runRecipe(rec recipe, idx int, cfg string, thorough bool) []*outcome {
 		o := newOutcome(vname)
 		with := func(a []string) []string { return append(append([]string{}, vflags...), a...) }
 		switch rec.kind {
-		case "pdf", "pdf1":
+		case "pdf", "pdf1", "pdfi":
 			var fileDoc []byte
-			if rec.kind == "pdf" {
+			if vflags != nil && plainFileNorm != "" && !thorough {
+				// quick tier: verbose runs only repeat the stdin->stdout variant
+			} else if rec.kind == "pdfi" {
+				fr := runBin(cfg, dir, nil, with(subst(rec.args, "in.pdf", "", "", ""))...)
+				o.cases = append(o.cases, [3]string{"exit", vh.Bool(fr.exit == 0), fmt.Sprintf("%x", fr.exit)})
+				if fr.exit != 0 {
+					o.fail("recipe-file-variant-fails:"+rec.name, fmt.Sprintf("exit %d stderr %s", fr.exit, fr.stderr))
+					continue
+				}
+				fileDoc, _ = os.ReadFile(filepath.Join(dir, "in.pdf"))
+			} else if rec.kind == "pdf" {
 				fr := runBin(cfg, dir, nil, with(subst(rec.args, "in.pdf", "f.pdf", "", ""))...)
 				o.cases = append(o.cases, [3]string{"exit", vh.Bool(fr.exit == 0), fmt.Sprintf("%x", fr.exit)})
 				if fr.exit != 0 {
@@ -821,31 +872,46 @@ func runRecipe(rec recipe, idx int, cfg string, thorough bool) []*outcome {
 				}
 				fileDoc, _ = os.ReadFile(filepath.Join(od, ents[0].Name()))
 			}
-			fn, err := normPDF(fileDoc, rec.upw, rec.opw)
-			if err != nil {
-				o.fail("file-variant-output-unreadable:"+rec.name, err.Error())
-				continue
+			var fn string
+			var err error
+			if fileDoc == nil && plainFileNorm != "" {
+				fn = plainFileNorm
+			} else {
+				fn, err = normPDF(fileDoc, rec.upw, rec.opw)
+				if err != nil {
+					o.fail("file-variant-output-unreadable:"+rec.name, err.Error())
+					continue
+				}
+				if vflags == nil {
+					plainFileNorm = fn
+				}
 			}
+			reduced := fileDoc == nil
 			type sv struct {
 				name    string
 				in, out string
 				i, o    string
 			}
 			svs := []sv{{"in-out", "-", "-", "1", "1"}}
+			if rec.kind == "pdfi" {
+				svs = []sv{{"in-only", "-", "", "1", "0"}}
+			}
 			if rec.kind == "pdf" {
-				svs = append(svs, sv{"in-only", "-", "", "1", "0"})
-				if thorough || rec.quick {
+				if !rec.noInOnly {
+					svs = append(svs, sv{"in-only", "-", "", "1", "0"})
+				}
+				if full {
 					svs = append(svs, sv{"out-only", "in.pdf", "-", "2", "1"}, sv{"in-file", "-", "s.pdf", "1", "2"})
 				}
+			}
+			if reduced {
+				svs = svs[:1]
 			}
 			for _, v := range svs {
 				var sr runRes
 				if rec.kind == "pdf1" {
 					sr = runBin(cfg, dir, sample, with(subst(rec.args, v.in, "", "-", ""))...)
 				} else {
-					if rec.name == "merge" && v.out == "" {
-						continue // merge has no optional outFile
-					}
 					sr = runBin(cfg, dir, sample, with(subst(rec.args, v.in, v.out, "", ""))...)
 				}
 				o.cases = append(o.cases, [3]string{"exit", vh.Bool(sr.exit == 0), fmt.Sprintf("%x", sr.exit)})
@@ -893,7 +959,11 @@ func runRecipe(rec recipe, idx int, cfg string, thorough bool) []*outcome {
 					continue
 				}
 				if sn != fn {
-					o.fail("stream-document-differs-from-file-document:"+rec.name+":"+v.name, firstDiff(fn, sn))
+					if rec.knownClass != "" && v.in == "-" {
+						o.fail(rec.knownClass, v.name+": "+firstDiff(fn, sn))
+					} else {
+						o.fail("stream-document-differs-from-file-document:"+rec.name+":"+v.name, firstDiff(fn, sn))
+					}
 					continue
 				}
 				o.ok()
@@ -918,10 +988,22 @@ func runRecipe(rec recipe, idx int, cfg string, thorough bool) []*outcome {
 				o.fail("temporary-stdin-copy-left-behind:"+rec.name, ents[0].Name())
 			}
 			o.ok()
-		case "json", "jsonout":
+		case "json", "jsonout", "jsonfile":
 			var fr, sr runRes
-			if rec.kind == "json" {
-				fr = runBin(cfg, dir, nil, with(subst(rec.args, "in.pdf", "", "", ""))...)
+			if rec.kind == "jsonfile" {
+				fr = runBin(cfg, dir, nil, with(subst(rec.args, "in.pdf", "", "", "f.json"))...)
+				sr = runBin(cfg, dir, sample, with(subst(rec.args, "-", "", "", "s.json"))...)
+				if len(fr.stdout) != 0 || len(sr.stdout) != 0 {
+					o.fail("stdout-not-empty-for-file-sink:"+rec.name, trunc(string(fr.stdout)+string(sr.stdout), 200))
+				}
+				fr.stdout, _ = os.ReadFile(filepath.Join(dir, "f.json"))
+				sr.stdout, _ = os.ReadFile(filepath.Join(dir, "s.json"))
+			} else if rec.kind == "json" {
+				if vflags != nil && !thorough && rec.in != "" {
+					fr = runBin(cfg, dir, sample, with(subst(rec.args, "-", "", "", ""))...)
+				} else {
+					fr = runBin(cfg, dir, nil, with(subst(rec.args, "in.pdf", "", "", ""))...)
+				}
 				if rec.in != "" {
 					sr = runBin(cfg, dir, sample, with(subst(rec.args, "-", "", "", ""))...)
 				} else {
@@ -1028,8 +1110,11 @@ func runRecipe(rec recipe, idx int, cfg string, thorough bool) []*outcome {
 
 	// invalid input through stdin: non-zero exit, empty stdout, message on stderr
 	if rec.in != "" && rec.kind != "dir" {
-		bads := map[string][]byte{"garbage": []byte("this is not a PDF file at all\n"), "empty": {}}
-		if thorough || rec.quick {
+		bads := map[string][]byte{"garbage": []byte("this is not a PDF file at all\n")}
+		if full || rec.name == "info-json" {
+			bads["empty"] = []byte{}
+		}
+		if thorough {
 			bads["truncated"] = sample[:len(sample)/3]
 		}
 		names := make([]string, 0, len(bads))
@@ -1047,8 +1132,12 @@ func runRecipe(rec recipe, idx int, cfg string, thorough bool) []*outcome {
 				a = subst(rec.args, "-", "-", "", "")
 			case "pdf1":
 				a = subst(rec.args, "-", "", "-", "")
+			case "pdfi":
+				a = subst(rec.args, "-", "", "", "")
 			case "jsonout":
 				a = subst(rec.args, "-", "", "", "-")
+			case "jsonfile":
+				a = subst(rec.args, "-", "", "", "bad.json")
 			default:
 				a = subst(rec.args, "-", "", "", "")
 			}
@@ -1087,7 +1176,7 @@ func runRecipe(rec recipe, idx int, cfg string, thorough bool) []*outcome {
 	}
 
 	// fresh configuration directory
-	if rec.quick && (rec.kind == "json" || rec.kind == "jsonout" || rec.kind == "pdf") {
+	if rec.quick && (rec.kind == "json" || rec.kind == "jsonout" || (rec.kind == "pdf" && !rec.noInOnly && full)) {
 		dir := filepath.Join(base, "fresh")
 		prepDir(dir, rec, sample)
 		o := newOutcome("fresh-config")
@@ -1246,8 +1335,8 @@ func main() {
 	var wg sync.WaitGroup
 	sem := make(chan struct{}, 12)
 	for i := range recs {
-		if !thorough && !recs[i].quick && (i+int(r.Seed))%3 != 0 {
-			// quick tier: all quick recipes + a rotating third of the others
+		if !thorough && !recs[i].quick && (i+int(r.Seed))%6 != 0 {
+			// quick tier: all quick recipes + a rotating sixth of the others
 			r.Count("B:recipe-skipped-in-quick-tier")
 			continue
 		}
